@@ -3,9 +3,9 @@
    A session authenticates once and keeps a user OBJECT (the user's computed channels and roles, and the role objects
    loaded by GetRoles / InitializeRoles).  It reloads the object only when its ChangeWaiter says that one of the
    principal documents it listens on was mutated:
-     db/change_listener.go  changeListener.ProcessFeedEvent : a MUTATION of a user / role document notifies its key
-                                                              (counter++, keyCounts[key] = counter); a DELETION of the
-                                                              document does not                          [changed_doc]
+     db/change_listener.go  changeListener.ProcessFeedEvent : a MUTATION or a DELETION of a user / role document
+                                                              notifies its key (counter++, keyCounts[key] = counter);
+                                                              before e7d0448 a deletion did not          [changed_doc]
         NewWaiterWithChannels / NewUserWaiter : userKeys = the user's key + one key per role name        [keys_of]
         ChangeWaiter.RefreshUserCount         : "changed" iff the largest count over userKeys moved      [se_dirty]
         ChangeWaiter.RefreshUserKeys          : rebuild userKeys from the reloaded user -- skipped only when the waiter
@@ -31,16 +31,22 @@ Record sess := mkSe {
 Record sstate := mkSS { ss_st : state; ss_sess : list (N * sess) }.
 Definition sinit : sstate := mkSS init [].
 
-(* the principal's document was MUTATED between st and st' (a deletion is not notified) *)
+Section WithDeletionSwitch.
+(* dn = true: the DELETION of a user / role document notifies its key like a mutation does (the code as it is now,
+   repair e7d0448); dn = false: the code before the repair, where ProcessFeedEvent returned before notifyKey for every
+   event that is not a mutation *)
+Variable dn : bool.
+
+(* the principal's document was written (mutated, or deleted when dn) between st and st' *)
 Definition changed_doc (st st' : state) (p : pid) : bool :=
   match p with
   | PU u => match users st' u with
             | Some ur' => negb (option_eqb urec_eqb (users st u) (Some ur'))
-            | None => false
+            | None => dn && match users st u with Some _ => true | None => false end
             end
   | PR r => match roles st' r with
             | Some rr' => negb (option_eqb rrec_eqb (roles st r) (Some rr'))
-            | None => false
+            | None => dn && match roles st r with Some _ => true | None => false end
             end
   end.
 
@@ -124,13 +130,18 @@ Fixpoint souts (ss : sstate) (ops : list sop) : list sout :=
   | [] => []
   | o :: r => let (ss', x) := sstep ss o in x :: souts ss' r
   end.
+End WithDeletionSwitch.
 
-(* operations whose effect on a principal document is a DELETION (never notified): deleting a user, purging a role;
-   db Purge, which invalidates nobody (purge-stale-grant); raced loads are not combined with sessions *)
+(* the code as it is now *)
+Definition deletion_notifies : bool := true.
+Definition sstep_now : sstate -> sop -> sstate * sout := sstep deletion_notifies.
+Definition srun_now : sstate -> list sop -> sstate := srun deletion_notifies.
+Definition souts_now : sstate -> list sop -> list sout := souts deletion_notifies.
+
+(* histories covered by the theorems: no db Purge, which invalidates nobody (purge-stale-grant); raced loads are not
+   combined with sessions *)
 Definition notified_op (o : sop) : bool :=
   match o with
-  | SBase (DelUser _) => false
-  | SBase (DelRole _ true) => false
   | SBase (Purge _) => false
   | SBase (LoadUserRace _ _ _) => false
   | SBase (LoadRoleRace _ _) => false
